@@ -20,7 +20,7 @@ Idle == [on |-> FALSE, cut |-> 0]
 TDoc ==
     /\ Ev.e = "Doc" /\ ~cur.on
     /\ Chk(InDialect(Ev.tree) /\ PreOk(Ev.pre))                                     \* generator obligations
-    /\ Chk(\A i \in 1..Len(Ev.prog) : Ev.prog[i] \in Actions)
+    /\ Chk(\A i \in 1..Len(Ev.prog) : Ev.prog[i] \in ProgLetters)
     /\ LET full == RenderDoc(Ev.tree, Ev.pre)
        IN /\ Chk(Ev.doc = SubSeq(full, 1, Len(full) - Ev.cut))
           /\ Chk(Ev.cut = 0 \/ (Ev.cut > Len(Ev.pre.tail) /\ Len(full) - Ev.cut > Len(RenderHead(Ev.pre))))
